@@ -137,7 +137,9 @@ func evalC02(s c02State) string {
 			return ""
 		}
 		// exemptions
-		if base && why == "method" {
+		// (a match that ALSO holds by mark equivalence — e.g. an explicit Mark with
+		// the reference the error's Is method accepts anyway — must survive)
+		if base && why == "method" && !tm.RefIsByMark(e, r) {
 			if s.RHist != "local" {
 				return "exempt\x00method-match and r travelled"
 			}
